@@ -420,4 +420,49 @@ theorem plot_errevery_match (n : Nat) :
     errEveryOf true none n = max (n * Coba.Generated.C18.errEveryFactor.1 / Coba.Generated.C18.errEveryFactor.2) 1 :=
   plot_errevery_match' n
 
+
+/-! ### Python's `sorted()` on parameter values (the `ord` / `xord` oracle replaced by a model) -/
+
+/-- Exact characterisation of when `sorted()` raises, for CPython's `list.sort` below 64 elements (`count_run` +
+`binarysort`) on values of the classes None / number / str / frozenset: a list of two or more values is sorted without
+`TypeError` **iff** all values belong to one class and that class is not `None` (every value is compared with at least
+one other value, and `<` raises across classes and on `None`).  Lists of length ≤ 1 are returned as they are. -/
+theorem py_sorted_raises_iff (l : List PyVal) (h2 : 2 ≤ l.length) :
+    (∃ out, pySorted l = .ok out) ↔ ∃ c, c ≠ PyClass.none ∧ ∀ v ∈ l, pyClass v = c :=
+  pySorted_ok_iff l h2
+
+example : pySorted [.num 2, .str [97], .num 1] = .error .typeError ∧ pySorted [.none, .none] = .error .typeError ∧
+    pySorted [.num 2, .num 3, .num 1] = .ok [.num 1, .num 2, .num 3] ∧ pySorted [.none] = .ok [.none] := by decide +kernel
+
+/-- where it succeeds on numbers or on strings, the order `sorted()` realises (`a ≤ b :⇔ not (b < a)`) is a total preorder
+(frozensets are only partially ordered: that is C18-F2's subject) -/
+theorem py_sorted_total_preorder (a b d : PyVal) (c : PyClass) (hc : c = .num ∨ c = .str)
+    (ha : pyClass a = c) (hb : pyClass b = c) (hd : pyClass d = c) :
+    (pyLe a b ∨ pyLe b a) ∧ (pyLe a b → pyLe b d → pyLe a d) ∧ pyLe a a :=
+  pyLe_total_preorder a b d c hc ha hb hd
+
+/-- whenever `sorted()` succeeds it returns as many values, all of the one class -/
+theorem py_sorted_ok_of_one_class {c : PyClass} (hc : c ≠ .none) (l : List PyVal) (h : ∀ v ∈ l, pyClass v = c) :
+    ∃ out, pySorted l = .ok out ∧ (∀ v ∈ out, pyClass v = c) ∧ out.length = l.length :=
+  pySorted_ok_of_oneClass hc l h
+
+
+/-! ### incrementally built Results (round g) -/
+
+/-- A table built by any schedule of in-index-order `Table.insert` batches with read-only analysis calls (which fill the
+cache of group boundaries) in between — starting from the empty indexed table, with the code's rule "every insert clears
+the cache" — holds exactly the rows of the Result built in one go, and every later analysis call sees exactly the groups
+of that one-shot Result.  For all schedules. (All analysis functions of the model are functions of these rows / groups.) -/
+theorem incremental_eq_oneshot (ops : List IncOp) :
+    (runInc true ops ⟨[], none⟩).rows = insertedRows ops ∧
+    (runInc true ops ⟨[], none⟩).groups = (runInc true [] ⟨insertedRows ops, none⟩).groups :=
+  incremental_eq_oneshot' ops
+
+/-- the hypothesis "insert clears the cache" is forced: keeping the cache for in-order inserts (seeded change C18-gm4)
+leaves the appended evaluation invisible on the schedule insert / look / insert -/
+theorem stale_cache_counterexample :
+    (runInc false cexInc ⟨[], none⟩).groups.length = 1 ∧ (runs (insertedRows cexInc)).length = 2 ∧
+    (runInc true cexInc ⟨[], none⟩).groups.length = 2 :=
+  stale_cache_counterexample'
+
 end Coba.C18
